@@ -31,6 +31,11 @@ def normalise(raw_rankings: Sequence[Sequence[Sequence]]) -> List[MRanking]:
     return [tuple(frozenset(conv(e) for e in b) for b in r) for r in raw_rankings]
 
 
+def renorm(rankings: Sequence[MRanking]) -> List[MRanking]:
+    """Re-apply the typing rule to a derived dataset (a projection of mixed names may be all integer-like)."""
+    return normalise([[list(b) for b in r] for r in rankings])
+
+
 def sort_key(k):
     return (0, k, "") if isinstance(k, int) else (1, 0, k)
 
